@@ -191,6 +191,11 @@ class C19(Check):
         for tb in t2:
             for i in range(0, len(lists2), 20):
                 out.append(("rev", scopes.SIG2, tb, lists2[i:i + 20]))
+        if quick:       # three atoms, three conditionals: two priors only (thorough: every 4th 0/1 table)
+            lists3q = [list(p) for p in itertools.combinations(RC3[:5], 3)] + [list(p) for p in itertools.combinations(RC3[:5], 2)]
+            for tb in ((0,) * 8, (0, 1, 2, 0, 1, 2, 0, 1)):
+                for i in range(0, len(lists3q), 5):
+                    out.append(("rev", scopes.SIG3, tb, lists3q[i:i + 5]))
         if not quick:
             lists3 = [[x] for x in RC3] + [list(p) for p in itertools.combinations(RC3, 2)] + [list(p) for p in itertools.combinations(RC3[:5], 3)]
             for tb in list(itertools.product(range(2), repeat=8))[::4]:
